@@ -11,12 +11,16 @@ NOTE = ("Trusted base: Go type checker, go/cfg, go/ssa and VTA of golang.org/x/t
         "current source; it does NOT decide the run-time behaviour (row sets, values, schedules) - see DESIGN.md section 4 'Not decided'.")
 
 CLAIMED = {
+ "C05": ("4 (C05)", "custom static analysis: registration-sequence check, symbolic path enumeration of the transaction callbacks, go/cfg guard-fact dominance of every effect site (with SSA effect summaries), SSA error-flow discipline with a repository-specific sink list, SSA origin of nested-call receivers",
+   "Static, all-paths/all-sites: begin-first/commit-last bracket of each write pipeline behind one predicate; exactly one of Commit/Rollback under the marker with the pool restored, pool+marker stored together only on a successful Begin; every effect site in every executor dominated by Error == nil; every error of a driver call, Rows.Scan/Close/Err, hook, save-point call or nested finisher reaches AddError / an Error field / the caller; nested writes run on a handle derived from the operation's own *DB; CreateInBatches wraps multi-batch writes in one transaction. Atomicity delivered by the database and driver-internal faults are NOT decided."),
  "C06": ("4 (C06)", "custom static analysis: SSA store/map-update/element-store enumeration with inter-procedural writes-through-parameter summaries, copy-obligation check of Statement.clone/getInstance, go/cfg guard facts with merge implications for Session, alias check of append/element stores in MergeClause/Build",
    "Static, all-methods/all-sites: no exported *DB method writes through its receiver (directly or via a callee); Statement.clone carries every per-chain field (maps deep, in-place-extended slices exact-length); getInstance keeps pool/context/SkipHooks with a fresh Clauses map; Session mutates a statement only after replacing it by a clone; MergeClause never appends onto or stores into a slice it did not create; Build/NegationBuild never store into slices reachable from receiver/parameters; Execute/Update/Count/AfterQuery reset or restore temporary state. Found and fixed three genuine upstream defects (known_findings.json). Necessary conditions only: equality of SQL/Vars with an isolated replay is not decided."),
  "C07": ("4 (C07)", "custom static analysis: go/cfg event-fact dominance on the schema cache protocol, lock-set data-flow (foreign relation map, statement cache), SSA who-writes for globals and callback registry, C06 immutability rules, loop-iteration path enumeration for the scan-value pool typestate",
    "Static, narrow: decides the synchronisation protocols the code relies on - wait-before-return / LoadOrStore-after-defer-close in the schema cache, lock held for writes to another schema's relation map, no unsynchronised package-level state, callback registry written only by registration code, no writes into memory shared by all chains of a handle (C06 rules), Get/Put typestate of pooled scan values, and the C14 lock rules. General data-race freedom and equality with a serial run are NOT decided."),
  "C09": ("4 (C09)", "custom static analysis: go/cfg guard-fact dominance with call-induced kills + symbolic path enumeration of the guard function + sibling check of all WHERE-adding sites",
    "Static, all-paths: every UPDATE/DELETE driver call is dominated by the missing-WHERE guard and by an Error == nil test made after it; path enumeration over the guard shows it raises ErrMissingWhereClause on some path and that every non-raising path carries AllowGlobalUpdate, an earlier error, or 'WHERE present and (soft-delete marker absent or >1 expressions)'; every WHERE clause added from user conditions or model keys is guarded by non-emptiness / non-zero key and BuildCondition yields nothing for empty input; the soft-delete filter is always paired with the marker the guard reads. Necessary conditions only: whether a user condition is effective at run time is not decided."),
+ "C13": ("4 (C13)", "custom static analysis: table agreement over constants/switch labels/struct fields/interfaces/call sites, go/cfg guard facts at hook and callMethod sites, CFG reachability for order, loop-iteration path enumeration for once-per-element",
+   "Static, all-sites: the six hook-name tables agree; each hook invocation sits in a closure handed to callMethod by an executor of the right pipeline on the right side of the statement, under its Schema flag, with callMethod guarded by !SkipHooks and Error == nil and the hook error recorded; BeforeSave first / AfterSave last inside a phase and hooks around the statement in the pipeline; callMethod hands hooks a session of the operation's handle, calls the hook exactly once per element with CurDestIndex bookkeeping and only when the whole value has no hook; UpdateColumn(s) set SkipHooks before executing. What a user hook does is NOT decided."),
  "C14": ("4 (C14)", "custom static analysis: lock-set data-flow on go/cfg (held/deferred states, joins), lock-state requirements for map accesses / blocking operations, event-fact dominance and must-pass on prepare, sibling check of the ErrBadConn arms and transaction wrappers",
    "Static, all-paths: Mux acquisitions are released exactly once on every path and never nested; no receive or driver call happens under the lock; every access to a Stmts map/field holds the lock (found and fixed the unlocked read in Session); the in-progress entry protocol of prepare (nil-map guard, deferred close on every exit after insertion, failure recorded and evicted, cache hits wait and check prepareErr); all four ErrBadConn arms evict and close; Close/Reset close entries after preparation and replace the map; transaction wrappers run only through Tx.StmtContext on the same cache. Linearizability, liveness of database/sql and the Session(PrepareStmt) generation split are NOT decided."),
  "C16": ("4 (C16)", "custom static analysis: copy-obligation check (attrs/assigns), SSA static call-closure reachability to pipeline accessors, symbolic path enumeration of FirstOrCreate, go/cfg guard facts on Save",
